@@ -529,3 +529,86 @@ def nested_variant_edge(fn, call, path):
         s = cand[0]
         edge = (s["site"].bb, s["info"]["edges"][path[depth]])
     return edge
+
+
+THROUGH_TRY = lambda c: 0 if c.matches(r"Result::<T, E>::map_err$|ops::Try>::branch$|ops::Try::branch$|Result::<T, E>::map$|convert::Into<U>>::into$|convert::From<T>>::from$") else None
+
+
+def try_branches_on(fn, poll_call):
+    """`?` applications (Try::branch calls) whose operand originates from the value of poll_call.
+    returns list of dict(call, cont_edge, break_edge)"""
+    out = []
+    for c in fn.calls():
+        if not c.matches(r"ops::Try(>)?::branch$"):
+            continue
+        roots = fn.origins(c.args[0], through=THROUGH_TRY)
+        if not any(r["k"] == "call" and r["call"].bb == poll_call.bb for r in roots):
+            continue
+        t = fn.term(c.target) if c.target is not None else None
+        ce = be = None
+        if t and t["k"] == "switch":
+            info = fn.switch_info(fn.term_site(c.target))
+            if "Continue" in info["edges"]:
+                ce = (c.target, info["edges"]["Continue"])
+            if "Break" in info["edges"]:
+                be = (c.target, info["edges"]["Break"])
+        out.append({"call": c, "cont_edge": ce, "break_edge": be})
+    return out
+
+
+def creation_sites(db, body):
+    """sites (fn, Site, stmt) where the closure/coroutine `body` is created"""
+    out = []
+    par = db.fns.get(body.parent)
+    if par is None:
+        return out
+    for site, s in par.aggregates():
+        if s["rv"].get("def") == body.id:
+            out.append((par, site, s))
+    return out
+
+
+def enclosing_chain(db, body):
+    """[(body, None), (parent, creation_site), (grandparent, creation_site), ...] up to the root fn"""
+    chain = [(body, None)]
+    cur = body
+    while cur.kind in ("closure", "coroutine"):
+        cs = creation_sites(db, cur)
+        if len(cs) != 1:
+            break
+        par, site, s = cs[0]
+        chain.append((par, site))
+        cur = par
+    return chain
+
+
+def dominated_in_chain(db, body, site, pred):
+    """pred(fn, site) -> bool must hold in `body` at `site`, or in an enclosing body at the
+    creation site of the nested closure/coroutine (lexical nesting = dominance across bodies)."""
+    ch = enclosing_chain(db, body)
+    if pred(body, site):
+        return True
+    for par, csite in ch[1:]:
+        if pred(par, csite):
+            return True
+    return False
+
+
+def place_ty(db, fn, p, depth=0):
+    """type of a place that is a plain local or a captured upvar (`_1.f:i`) of a closure/coroutine"""
+    l, proj = p
+    pr = [e for e in proj if e != "*"]
+    if fn.kind in ("closure", "coroutine") and l == 1 and pr and pr[0].startswith("f:") and depth < 6:
+        i = int(pr[0].split(":")[1])
+        cs = creation_sites(db, fn)
+        if cs:
+            par, site, s = cs[0]
+            ops = s["rv"]["ops"]
+            if i < len(ops):
+                pp = op_place(ops[i])
+                if pp is not None:
+                    return place_ty(db, par, pp, depth + 1)
+        return "?"
+    if not pr:
+        return fn.local_ty(l)
+    return fn.local_ty(l) + " /" + "/".join(pr)
